@@ -377,6 +377,7 @@ def crosscheck(prop, seed, n_each=6):
     load_contracts()
     loader = Loader(os.environ.get("PYVC_REPO", "/repo"))
     rng = random.Random(seed)
+    V.TOL[0] = 1e-6
     res = {"runs": 0, "agree": 0, "skipped": 0, "disagreements": [], "by_function": {}}
     for target in REGISTRY.order:
         con = REGISTRY.get(target)
